@@ -137,7 +137,7 @@ def run(ctx):
         'rule': s['rule'], 'samples': s['samples'], 'distribution': s['distribution'],
         'traces_validated_against_impl': nbulk, 'validated_in_coq': len(terms),
         'disagreements': len(bad) + len(bad_bulk),
-        'exhaustive': 'all edge sets over <= 4 jobs (both orders of the needs entries); <= 3 jobs inside Coq',
+        'exhaustive': True, 'exhaustive_scope': 'all edge sets over <= 4 jobs (both orders of the needs entries); <= 3 jobs inside Coq; larger graphs random',
     })
     vf.finish(ctx, 'proof', fails)
 
